@@ -323,7 +323,7 @@ Lemma assign_at_spec X : forall i epub epro,
   (forall k, i <= k -> opt_is epub k = opt_is (last_idx Pub X i None) k) ->
   (forall k, i <= k -> opt_is epro k = opt_is (last_idx Pro X i None) k) ->
   Forall (fun s => Forall res_private (snd s)) X ->
-  assign_at epub epro X i = apply_vis (eff_vis (mkV false false false) X) X.
+  assign_at epub epro X i = apply_vis (eff_vis (mkV false false false false) X) X.
 Proof.
   induction X as [|[lb rs] r IH]; intros i epub epro Hpub Hpro HX; [reflexivity|].
   inversion HX as [|? ? Hrs Hr]; subst. cbn [snd] in Hrs.
@@ -348,10 +348,10 @@ Proof.
 Qed.
 
 Lemma apply_vis_all X : map (fun s => map (set_vis_res (vis_of_label (fst s))) (snd s)) X
-                        = apply_vis (eff_vis (mkV true false false) X) X.
+                        = apply_vis (eff_vis (mkV true false false false) X) X.
 Proof. induction X as [|[lb rs] r IH]; [reflexivity|]. cbn [map eff_vis apply_vis v_allsec fst snd]. now rewrite IH. Qed.
 
-Lemma eff_vis_flag {X : Type} v (S : list (label * X)) : eff_vis v S = eff_vis (mkV (v_allsec v) false false) S.
+Lemma eff_vis_flag {X : Type} v (S : list (label * X)) : eff_vis v S = eff_vis (mkV (v_allsec v) false false false) S.
 Proof. induction S as [|[lb x] r IH]; [reflexivity|]. cbn [eff_vis v_allsec]. now rewrite IH. Qed.
 
 Lemma assign_vis_spec v X : Forall (fun s => Forall res_private (snd s)) X ->
